@@ -110,7 +110,9 @@ LIFTS = {'jit': nn.jit, 'remat': nn.remat,
          'mapvars': functools.partial(nn.map_variables, mapped_collections=True, mutable=True),
          'jit_f': functools.partial(nn.jit, variables=['params', 'st'], rngs=['params', 'drop']),
          'remat_f': functools.partial(nn.remat, variables=['params', 'st'], rngs=['params', 'drop'], prevent_cse=False),
-         'remat_p': functools.partial(nn.remat, rngs='params'),      # only the params stream is lifted
+         'remat_p': functools.partial(nn.remat, rngs='params'),
+         # a read-only identity map over a collection the family does not use: every other collection keeps its mutability
+         'mapvars_ro': functools.partial(nn.map_variables, mapped_collections='consts', mutable=False),      # only the params stream is lifted
          'mapvars_f': functools.partial(nn.map_variables, mapped_collections=['params', 'st'], mutable=True, rngs=['params', 'drop'],
                                         variables=['params', 'st'])}
 
